@@ -15,6 +15,7 @@ type c05Case struct {
 	Bytes string `json:"bytes"`
 	Raw   []byte `json:"raw,omitempty"` // the residues when they are not valid UTF-8 text (replaces Bytes)
 	Feats []Feat `json:"feats"`
+	GB    bool   `json:"genbank,omitempty"` // the sequence is a seqio.GenBank record instead of a gts.New value
 }
 
 // strandAlphabet: one letter of each complementary IUPAC pair (both cases): every byte identifies its
@@ -73,7 +74,12 @@ func c05Check(c c05Case) *Violation {
 		orig = c.Raw
 	}
 	L := len(orig)
-	mk := func() gts.Sequence { return gts.New(nil, featsToGts(c.Feats), append([]byte(nil), orig...)) }
+	mk := func() gts.Sequence {
+		if c.GB {
+			return c02Carry(1, "REC", c.Feats, orig)
+		}
+		return gts.New(nil, featsToGts(c.Feats), append([]byte(nil), orig...))
+	}
 	var rev, revrev, comp, compcomp, rc gts.Sequence
 	if pi := guard(func() { rev = gts.Reverse(mk()) }); pi != nil {
 		return panicViolation("Reverse", pi)
@@ -310,7 +316,7 @@ func c05Gen(t *rapid.T) c05Case {
 		bs = rapid.SliceOfN(rapid.SampledFrom(iupacBytes), 1, 14).Draw(t, "bytes")
 	}
 	L := len(bs)
-	c := c05Case{Bytes: string(bs)}
+	c := c05Case{Bytes: string(bs), GB: rapid.IntRange(0, 3).Draw(t, "genbank") == 0}
 	cfg := locCfg{L: L, Hot: []int{0, 1, L - 1, L, L / 2}, MaxDepth: 3, MaxParts: scopeParts(6), Ambig: true, Sites: true, MaxSpan: 3}
 	if genLarge {
 		cfg.MaxSpan = 0
